@@ -49,14 +49,24 @@ INVS = ["SlugRule", "SlugsUnique", "DepthRule", "ResolveRule", "SelfResolve", "S
 def doc_text(items, links, wrap="none"):
     """items/links (names as strings) -> Markdown text + the line of every link"""
     lines = []
+
+    def nested(k):
+        # every fifth item, if a heading, is written inside a block quote (a rubric: anchors and links work the same);
+        # a '(name)=' target directly before it goes into the quote with it
+        return 0 <= k < len(items) and items[k][0] == "h" and k % 5 == 3 and "\n" not in items[k][1]
     for n, it in enumerate(items):
         if it[0] == "h":
+            if nested(n):
+                lines += ["> " + "#" * it[2] + " " + it[1], ""]
+                continue
             if n % 4 == 2 and "\n" not in it[1]:
                 lines.append("{#xid%d}" % n)          # an explicit id on the heading (attrs_block): the slug rules are unchanged
             if "\n" in it[1]:
                 lines += it[1].split("\n") + ["===" if it[2] == 1 else "---", ""]        # setext: the title spans source lines
             else:
                 lines += ["#" * it[2] + " " + it[1], ""]
+        elif (len(it) <= 2 or it[2] == "next") and nested(n + 1):
+            lines.append(f"> ({it[1]})=")
         elif len(it) > 2 and it[2] == "attr":
             lines += ["{#%s}" % it[1], f"P{n + 1}", ""]
         elif len(it) > 2 and it[2] == "comment":
@@ -108,17 +118,18 @@ def observe(text, depth, items, links, slug_func=None):
         ov["myst_heading_slug_func"] = slug_func
     doc, warns = docutils_doctree(text, ov)
     hidx = [n for n, it in enumerate(items, 1) if it[0] == "h"]
-    secs = [s for s in doc.findall(nodes.section)]
+    # (a heading written inside a block quote is a rubric)
+    secs = [s for s in doc.findall(lambda x: isinstance(x, nodes.section | nodes.rubric))]
     problems = []
     if len(secs) != len(hidx):
-        problems.append(f"{len(secs)} sections for {len(hidx)} headings")
+        problems.append(f"{len(secs)} sections/rubrics for {len(hidx)} headings")
     sec_item = {id(s): hidx[k] for k, s in enumerate(secs) if k < len(hidx)}
     slugs = [[s2c(s["slug"]), sec_item[id(s)]] for s in secs if "slug" in s and id(s) in sec_item]
     sec_titles = {}
     for s_ in secs:
-        if id(s_) in sec_item and len(s_) and isinstance(s_[0], nodes.title):
-            t_ = s_[0].deepcopy()
-            for im in list(t_.findall(nodes.image)) + list(t_.findall(nodes.raw)):
+        if id(s_) in sec_item and (isinstance(s_, nodes.rubric) or (len(s_) and isinstance(s_[0], nodes.title))):
+            t_ = (s_ if isinstance(s_, nodes.rubric) else s_[0]).deepcopy()
+            for im in list(t_.findall(nodes.image)) + list(t_.findall(nodes.raw)) + list(t_.findall(nodes.system_message)):
                 im.parent.remove(im)
             sec_titles[sec_item[id(s_)]] = t_.astext()
     tnames = {}
@@ -149,7 +160,7 @@ def observe(text, depth, items, links, slug_func=None):
         for nm in node.get("names", []):
             if nm in tnames and doc.nameids.get(nm) == r["refid"]:
                 cand.append(["explicit", tnames[nm]])
-        if isinstance(node, nodes.section) and id(node) in sec_item and (r["refid"] == node["ids"][0] or not cand):
+        if isinstance(node, nodes.section | nodes.rubric) and id(node) in sec_item and (r["refid"] == node["ids"][0] or not cand):
             cand.append(["slug", sec_item[id(node)]])
         res.append(cand[0] if len(cand) == 1 else ["ambiguous", cand])
     wl = sorted(w["line"] for w in warns if w["tag"] == "myst.xref_missing")
